@@ -29,6 +29,7 @@ var _ time.Time
 //@ iface Message.Seen(self Message) (r bool)
 //@ iface Message.To(self Message) (r []*mail.Address)
 //@ iface Message.Date(self Message) (r time.Time)
+//@   pure
 //@ iface Message.Source(self Message) (r io.ReadCloser, err error)
 //@   ensures err == nil ==> r != nil
 
@@ -79,3 +80,86 @@ func Ghost_addIDAt(s Store, j int) string   { return vcSeqAt(ghost_addIDs(s), j)
 //@   ensures vcSeqAt(ghost_rmBoxes(self), old(ghost_nremoved(self))) == mailbox && vcSeqAt(ghost_rmIDs(self), old(ghost_nremoved(self))) == id
 //@   ensures forall j int :: { vcSeqAt(ghost_rmIDs(self), j) } j < old(ghost_nremoved(self)) ==> vcSeqAt(ghost_rmIDs(self), j) == old(vcSeqAt(ghost_rmIDs(self), j))
 //@   ensures forall j int :: { vcSeqAt(ghost_rmBoxes(self), j) } j < old(ghost_nremoved(self)) ==> vcSeqAt(ghost_rmBoxes(self), j) == old(vcSeqAt(ghost_rmBoxes(self), j))
+
+// VisitMailboxes applies f to the message list of each mailbox (any number of them, until f returns
+// false); whatever f does, happens.
+//@ iface Store.VisitMailboxes(self Store, f func([]Message) bool) (err error)
+//@   attr calls-arg=1
+
+// ---------------------------------------------------------------------------------------------
+// C12: retention removes exactly the expired messages.
+
+//@ pred spec_cnt(q vcSeq[bool], lo int, n int) int = vcIte(n <= 0, 0, spec_cnt(q, lo, n-1) + vcIte(vcSeqAt(q, lo+n-1), 1, 0))
+
+// @ lemma lemma_cnt_step
+// @   requires n >= 0
+// @   ensures spec_cnt(q, lo, n+1) == spec_cnt(q, lo, n) + vcIte(vcSeqAt(q, lo+n), 1, 0)
+// @   serves C12
+func lemma_cnt_step(q vcSeq[bool], lo int, n int) {}
+
+// @ lemma lemma_cnt_bounds
+// @   requires n >= 0
+// @   ensures 0 <= spec_cnt(q, lo, n) && spec_cnt(q, lo, n) <= n
+// @   decreases n
+// @   serves C12
+func lemma_cnt_bounds(q vcSeq[bool], lo int, n int) {
+	if n <= 0 {
+		return
+	}
+	lemma_cnt_bounds(q, lo, n-1)
+}
+
+// @ lemma lemma_cnt_lt
+// @   requires 0 <= k && k < n && vcSeqAt(q, lo+k)
+// @   ensures spec_cnt(q, lo, k) < spec_cnt(q, lo, n)
+// @   decreases n
+// @   serves C12
+func lemma_cnt_lt(q vcSeq[bool], lo int, k int, n int) {
+	if n-1 <= k {
+		return
+	}
+	lemma_cnt_lt(q, lo, k, n-1)
+}
+
+func ghost_closed(c chan bool) bool         { panic("ghost") }
+func ghost_nscans(rs *RetentionScanner) int { panic("ghost") }
+
+// Which messages of a list are expired: received before the cutoff.
+//@ pred spec_expired(ms []Message, cutoff time.Time) vcSeq[bool] = vcMapSeq(func(k int) bool { return ms[k].Date().Before(cutoff) })
+
+// The visitor passed to VisitMailboxes: for the list it is given, RemoveMessage is called exactly
+// for the expired messages, in order, each with its own mailbox and id; nothing else is removed.
+//@ func (*RetentionScanner).DoScan$1
+//@   requires rs != nil && rs.ds != nil
+//@   requires forall k int :: { messages[k] } 0 <= k && k < len(messages) ==> messages[k] != nil
+//@   modifies ghost_nremoved(rs.ds), ghost_rmBoxes(rs.ds), ghost_rmIDs(rs.ds)
+//@   ensures[exactlyExpired] ghost_nremoved(rs.ds) == old(ghost_nremoved(rs.ds)) + spec_cnt(spec_expired(messages, cutoff), 0, len(messages))
+//@   ensures[identity] forall k int :: { messages[k] } 0 <= k && k < len(messages) && vcSeqAt(spec_expired(messages, cutoff), k) ==>
+//@      vcSeqAt(ghost_rmIDs(rs.ds), old(ghost_nremoved(rs.ds)) + spec_cnt(spec_expired(messages, cutoff), 0, k)) == messages[k].ID() &&
+//@      vcSeqAt(ghost_rmBoxes(rs.ds), old(ghost_nremoved(rs.ds)) + spec_cnt(spec_expired(messages, cutoff), 0, k)) == messages[k].Mailbox()
+//@   loop 1: invariant 0 <= ridx && ridx <= len(messages)
+//@   loop 1: invariant ghost_nremoved(rs.ds) == old(ghost_nremoved(rs.ds)) + spec_cnt(spec_expired(messages, cutoff), 0, ridx)
+//@   loop 1: invariant forall k int :: { messages[k] } 0 <= k && k < ridx && vcSeqAt(spec_expired(messages, cutoff), k) ==>
+//@      vcSeqAt(ghost_rmIDs(rs.ds), old(ghost_nremoved(rs.ds)) + spec_cnt(spec_expired(messages, cutoff), 0, k)) == messages[k].ID()
+//@   loop 1: invariant forall k int :: { messages[k] } 0 <= k && k < ridx && vcSeqAt(spec_expired(messages, cutoff), k) ==>
+//@      vcSeqAt(ghost_rmBoxes(rs.ds), old(ghost_nremoved(rs.ds)) + spec_cnt(spec_expired(messages, cutoff), 0, k)) == messages[k].Mailbox()
+//@   loop 1: decreases len(messages) - ridx
+//@   uses lemma_cnt_step lemma_cnt_bounds lemma_cnt_lt
+//@   serves C12
+
+// One scan: touches the store only through VisitMailboxes (and, inside the visitor, RemoveMessage).
+//@ func (*RetentionScanner).DoScan
+//@   requires rs.ds != nil
+//@   modifies *
+//@   attr log-count=ghost_nscans
+//@   serves C12
+
+// Start: with a retention period <= 0 no scan is ever made and nothing is removed; whenever Start
+// returns the shutdown channel has been closed (so Join returns).
+//@ func (*RetentionScanner).Start
+//@   requires rs.ds != nil && rs.retentionShutdown != nil && !ghost_closed(rs.retentionShutdown) && ctx != nil
+//@   modifies *
+//@   ensures[joinReleased] ghost_closed(rs.retentionShutdown)
+//@   ensures[zeroNeverScans] old(rs.retentionPeriod) <= 0 ==> ghost_nscans(rs) == old(ghost_nscans(rs)) && ghost_nremoved(rs.ds) == old(ghost_nremoved(rs.ds))
+//@   loop 1: invariant !ghost_closed(rs.retentionShutdown) && rs.ds != nil && rs.retentionShutdown != nil && rs.retentionPeriod > 0
+//@   serves C12
